@@ -3,10 +3,11 @@
      format_numeric_s / format_numeric_u, format_char, every format_type overload the harness can
      reach, apply_format (both overloads).
    Digits come from Num/Digits.v (uint_formatter::format transcribed; shared, imported).
-   REPAIRED behaviour is modelled for three defects of the pinned tree (AGENT_GUIDE):
+   The tree as repaired by the fix: commits (AGENT_GUIDE) is modelled:
      * format_numeric_s takes the magnitude by unsigned negation (no std::abs(MIN) UB),
-     * format_char range-tests the value BEFORE narrowing it to int,
-     * format_type(double) has no 64-byte limit on the libc rendering.
+     * format_char takes an unsigned long long and range-tests it before narrowing to char32_t,
+     * format_type(double) renders again into a heap buffer of the reported size when the text
+       does not fit its 64-byte stack buffer (the second snprintf is the same oracle value).
    Floating-point digits are libc's: a double argument carries an ORACLE `render` (what
    snprintf returns for the constructed "%[+][.prec]{e,E,f,g}"), about which nothing is assumed.
    MODEL ONLY (no proofs here).                                                          *)
@@ -128,11 +129,16 @@ Definition radix_of (dc : digit_class) : outcome (N * bool) :=
   | DigitChar => Abort AbDigitClass
   end.
 
-(* format_numeric_s<int_T>: bits = value bits of make_unsigned<int_T>; v in int_T's range.
-   REPAIRED: magnitude = 0 - uint_T(v) for v < 0, i.e. |v| (no std::abs). *)
+(* static_cast<uint_T>(value) for a uint_T of `bits` bits *)
+Definition to_uint (bits : nat) (v : Z) : N := Z.to_N (v mod 2 ^ Z.of_nat bits)%Z.
+(* const uint_T abs_value = value < 0 ? 0 - static_cast<uint_T>(value) : static_cast<uint_T>(value); *)
+Definition abs_value (bits : nat) (v : Z) : N :=
+  if (v <? 0)%Z then to_uint bits (0 - Z.of_N (to_uint bits v)) else to_uint bits v.
+
+(* format_numeric_s<int_T>: bits = value bits of make_unsigned<int_T>; v in int_T's range *)
 Definition format_numeric_s (bits : nat) (spec : format_spec) (v : Z) : W unit :=
   '(radix, upper) <~ liftW (radix_of (dclass spec)) ;;
-  text <~ liftW (uint_format bits (Z.abs_N v) radix upper) ;;
+  text <~ liftW (uint_format bits (abs_value bits v) radix upper) ;;
   let nt := if (v =? 0)%Z then NumZero else if (v <? 0)%Z then NumNegative else NumPositive in
   format_numeric_string spec text nt.
 
@@ -154,11 +160,17 @@ Definition write_utf8 (ch : N) : list N :=
 
 Definition badchar_utf8 : list N := [0xEF; 0xBF; 0xBD].
 
-(* ---- _ST_PRIVATE::format_char; REPAIRED: the range test sees the untruncated value ---- *)
-Definition format_char (spec : format_spec) (v : Z) : W unit :=
+(* ---- _ST_PRIVATE::format_char(format, output, unsigned long long ch) ----
+     conversion_error_t error = out_of_range;
+     if (ch <= 0x10FFFF) error = write_utf8(dest, static_cast<char32_t>(ch));
+     if (error != success) append_chars(dest, badchar_substitute_utf8, ...);          *)
+Definition format_char (spec : format_spec) (ch : N) : W unit :=
   if negb (minimum_length spec =? 0)%Z || negb (pad spec =? 0) then liftW (Abort AbCharPad)
-  else if (0 <=? v)%Z && (v <=? 0x10FFFF)%Z then emit (EApp (write_utf8 (Z.to_N v)))
+  else if ch <=? 0x10FFFF then emit (EApp (write_utf8 ch))
   else emit (EApp badchar_utf8).
+
+(* conversion of a signed value to unsigned long long *)
+Definition to_ull (v : Z) : N := Z.to_N (v mod 18446744073709551616)%Z.
 
 (* ---- format_type(double): builds "%[+][.prec]{e,E,f,g}", snprintf, pads ---- *)
 Definition format_double (spec : format_spec) (render : bool -> Z -> float_class -> list N) : W unit :=
@@ -188,11 +200,14 @@ Definition is_char_class (spec : format_spec) : bool :=
 
 Definition format_type (spec : format_spec) (a : arg) : W unit :=
   match a with
-  | AInt true bits v => if is_char_class spec then format_char spec v else format_numeric_s bits spec v
-  | AInt false bits v => if is_char_class spec then format_char spec v else format_numeric_u bits spec (Z.to_N v)
-  | AChar v => if is_char_class spec then format_char spec v else format_numeric_s 32 spec v
-  | AWChar v => if is_char_class spec then format_char spec v else format_numeric_s 32 spec v
-  | AChar32 v => if is_char_class spec then format_char spec (Z.of_N v) else format_numeric_u 32 spec v
+  (* _ST_FORMAT_INT_TYPE: format_char(format, output, static_cast<unsigned long long>(value)) *)
+  | AInt true bits v => if is_char_class spec then format_char spec (to_ull v) else format_numeric_s bits spec v
+  | AInt false bits v => if is_char_class spec then format_char spec (to_ull v) else format_numeric_u bits spec (Z.to_N v)
+  (* char: format_char(format, output, value): char -> unsigned long long *)
+  | AChar v => if is_char_class spec then format_char spec (to_ull v) else format_numeric_s 32 spec v
+  (* wchar_t, char32_t: format_char(format, output, static_cast<int>(value)) *)
+  | AWChar v => if is_char_class spec then format_char spec (to_ull (to_int v)) else format_numeric_s 32 spec (to_int v)
+  | AChar32 v => if is_char_class spec then format_char spec (to_ull (to_int (Z.of_N v))) else format_numeric_u 32 spec v
   | ABool true => format_string spec [116; 114; 117; 101] AlignLeft            (* "true" *)
   | ABool false => format_string spec [102; 97; 108; 115; 101] AlignLeft       (* "false" *)
   | AStr s => format_string spec s AlignLeft
